@@ -46,7 +46,7 @@ def strategy_(draw, tier):
         else:
             d = draw(sm.dataset_decl())
             d["fillmode"] = None     # fill mode is a file-level setting (see case["fillmode"])
-        d["blocksize"] = draw(st.sampled_from([None, None, 8, 64, 4096])) if d["dims"][0] == 0 else None
+        d["blocksize"] = draw(st.sampled_from([None, None, 1, 2, 8, 64, 4096])) if d["dims"][0] == 0 else None
         decls.append(d)
     fillmode = draw(st.sampled_from([sm.SD_FILL, sm.SD_FILL, sm.SD_NOFILL]))
     models = [sm.ArrayModel(d["nt"], d["dims"], True, d["user_fill"]) for d in decls]
